@@ -72,6 +72,9 @@ type MemState struct {
 	NoChains  bool // owner keys have no certificate chain (forces X509 instead of X5Chain)
 	// BeforeInvalidate, when set, runs at the start of InvalidateToken
 	BeforeInvalidate func(ctx context.Context, tok string)
+	// JournalSession, when set, also journals the session writes a TO2 service makes for messages after ProveDevice
+	// (SetMTU, SetReplacementHmac, SetDevmod): "the message reached the service and was acted upon"
+	JournalSession bool
 }
 
 // NewMemState returns an empty store.
@@ -287,7 +290,13 @@ func (s *MemState) ReplacementGUID(ctx context.Context) (g protocol.GUID, err er
 
 func (s *MemState) SetReplacementHmac(ctx context.Context, h protocol.Hmac) error {
 	h.Value = append([]byte{}, h.Value...)
-	return s.with(ctx, protocol.TO2Protocol, func(x *session) error { x.replHmac = &h; return nil })
+	return s.with(ctx, protocol.TO2Protocol, func(x *session) error {
+		if s.JournalSession {
+			s.journal(ctx, "SetReplacementHmac", protocol.GUID{}, "")
+		}
+		x.replHmac = &h
+		return nil
+	})
 }
 
 func (s *MemState) ReplacementHmac(ctx context.Context) (h protocol.Hmac, err error) {
@@ -342,7 +351,13 @@ func (s *MemState) SetupDeviceNonce(ctx context.Context) (n protocol.Nonce, err 
 }
 
 func (s *MemState) SetMTU(ctx context.Context, mtu uint16) error {
-	return s.with(ctx, protocol.TO2Protocol, func(x *session) error { x.mtu = &mtu; return nil })
+	return s.with(ctx, protocol.TO2Protocol, func(x *session) error {
+		if s.JournalSession {
+			s.journal(ctx, "SetMTU", protocol.GUID{}, "")
+		}
+		x.mtu = &mtu
+		return nil
+	})
 }
 
 func (s *MemState) MTU(ctx context.Context) (m uint16, err error) {
@@ -356,6 +371,9 @@ func (s *MemState) SetDevmod(ctx context.Context, devmod serviceinfo.Devmod, mod
 		return err
 	}
 	return s.with(ctx, protocol.TO2Protocol, func(x *session) error {
+		if s.JournalSession {
+			s.journal(ctx, "SetDevmod", protocol.GUID{}, "")
+		}
 		x.devmod, x.devmodModules, x.devmodDone, x.hasDevmod = b, slices.Clone(modules), complete, true
 		return nil
 	})
